@@ -99,6 +99,8 @@ type State struct {
 	alloc  string
 	ghosts map[string]string
 	defers []deferred
+	// interior pointers (&x.f, &a[i]) held in local variables: the address is kept symbolically per cell
+	addrs map[*Cell]*Addr
 }
 
 func (s *State) clone() *State {
@@ -113,7 +115,28 @@ func (s *State) clone() *State {
 		n.ghosts[k] = v
 	}
 	n.defers = append([]deferred{}, s.defers...)
+	if len(s.addrs) > 0 {
+		n.addrs = make(map[*Cell]*Addr, len(s.addrs))
+		for k, v := range s.addrs {
+			n.addrs[k] = v
+		}
+	}
 	return n
+}
+
+func sameAddr(a, b *Addr) bool {
+	if a == nil || b == nil {
+		return a == b
+	}
+	if a.Kind != b.Kind || a.Ref != b.Ref || a.Idx != b.Idx || a.Cell != b.Cell || len(a.Path) != len(b.Path) {
+		return false
+	}
+	for i := range a.Path {
+		if a.Path[i].Field != b.Path[i].Field || a.Path[i].Idx != b.Path[i].Idx {
+			return false
+		}
+	}
+	return true
 }
 
 // ---------------------------------------------------------------------------
